@@ -50,7 +50,7 @@ func VerifC46NewActionTimings(
 			a.broadcastCheckDelay, p.ValidityBlocks(),
 		}, true
 	case ActionRedemption:
-		p := &RedemptionProposal{}
+		p := &RedemptionProposal{RedemptionTxFee: big.NewInt(0)}
 		a := newRedemptionAction(
 			logger.With(), nil, nil, wallet{}, nil, p, startBlock, expiryBlock, nil,
 		)
